@@ -98,6 +98,23 @@ pub fn cmd_pipeline(args: &[&str], out: &mut Vec<String>) {
                     Err(_) => break,
                 }
             }
+            // the same NAL through Read::read with a 16-byte scratch: must give the same bytes
+            {
+                use std::io::Read;
+                let mut r2 = nal.reader();
+                let mut b2 = Vec::new();
+                let mut scratch = [0u8; 16];
+                loop {
+                    match r2.read(&mut scratch) {
+                        Ok(0) => break,
+                        Ok(k) => b2.extend_from_slice(&scratch[..k]),
+                        Err(_) => break,
+                    }
+                }
+                if b2 != bytes {
+                    calls.push(format!("READ-DIFFERS:{}", hex(&b2)));
+                }
+            }
             let parsed = if nal.is_complete() { parse_in_ctx(&mut ctx, &nal) } else { "-".to_string() };
             // incomplete invocations are summarised (length + last bytes): the full bytes of every NAL are printed once, when complete
             let shown = if nal.is_complete() { hex(&bytes) } else { format!("#{}.{}", bytes.len(), hex(&bytes[bytes.len().saturating_sub(4)..])) };
